@@ -126,9 +126,14 @@ def histories(spec, cat, gold, model, tier):
             s = idx[first[0]]
             mid.append(Ev(s, M + "Yc", b"", 1, u32(1) + b"main\0"))
             mid.append(Ev(s, M + "Yc", b"", 1, u32(2) + ("solve_%d" % pid).encode() + b"\0"))
+            # two types without a label: still two types, each with a (default) label in the .pcf
+            mid.append(Ev(s, M + "Yc", b"", 1, u32(3) + b"\0"))
+            mid.append(Ev(s, M + "Yc", b"", 1, u32(4) + b"\0"))
             mid.append(Ev(s, M + "Tc", u32(1, 1)))
             mid.append(Ev(s, M + "Tc", u32(2, 2)))
-            for tid in (1, 2):
+            mid.append(Ev(s, M + "Tc", u32(3, 3)))
+            mid.append(Ev(s, M + "Tc", u32(4, 4)))
+            for tid in (1, 2, 3, 4):
                 pay = u32(tid, 0) if M == "V" else u32(tid)
                 mid.append(Ev(s, M + "Tx", pay))
                 mid.append(Ev(s, M + "Te", pay))
